@@ -1,5 +1,123 @@
-(* C02 -- placeholder while the check is being developed; replaced below. *)
-From Cog Require Import Model.IR Gen.Placeholders_gen.
-Theorem c02_placeholder : True.
-Proof. exact I. Qed.
-Print Assumptions c02_placeholder.
+(* C02 -- a successful run only emits well-formed code; unsupported constructs are errors.
+   PARTIAL BY NATURE: Go's type checker, CPython and javac are not modelled (they are RUN by checks/c02.py on
+   every generated tree).  The theorems speak about the declarations the Go types jenny emits
+   (Model/GoDecl.v: named types, constants, constructor functions, method sets per option vector, scalar default
+   literals, placeholder texts) -- the part of "type-checks" that is cog's own responsibility.
+   Statements only; proofs in Proofs/GoDeclProofs.v. *)
+From Coq Require Import List String ZArith Bool.
+From Cog Require Import Model.IR Model.Names Model.Json Model.GoSemBase Model.NF Model.GoDecl Proofs.GoDeclProofs
+  Gen.Placeholders_gen.
+Import ListNotations.
+Local Open Scope string_scope.
+
+(* ---------- the headline, in full ---------- *)
+(* for every context in Go normal form and all 2^7 option vectors, the declarations are closed, duplicate-free,
+   field-clash-free, method-closed and placeholder-free *)
+Definition go_decls_well_formed_statement : Prop :=
+  forall ctx, nf_violations "go" ctx = [] -> forall fl, In fl all_flags -> decls_wf fl ctx = true.
+
+(* refuted: names that coincide after camel-casing are declared twice (objects bar_baz / BarBaz, fields some_name /
+   someName); no front-end and no pass rejects them *)
+Theorem go_decls_well_formed_refuted : ~ go_decls_well_formed_statement.
+Proof.
+  intros H. assert (E := H w_collide_ctx eq_refl flags_off (in_all_flags flags_off)).
+  rewrite collide_refutes in E. discriminate.
+Qed.
+Print Assumptions go_decls_well_formed_refuted.
+
+(* proved: the 2^7 option vectors collapse to two -- whatever is well-formed with `any` spelled either way is
+   well-formed under every vector; in particular every method a generated body calls on another type (Equals,
+   Validate, UnmarshalJSONStrict of referenced structs, through arrays, maps and alias chains) is printed under the
+   very same vector *)
+Theorem go_decls_well_formed_partial : forall ctx,
+    decls_wf (base_flags false) ctx = true -> decls_wf (base_flags true) ctx = true ->
+    forall fl, In fl all_flags -> decls_wf fl ctx = true.
+Proof. intros ctx H0 H1 fl _. apply decls_wf_all_flags; assumption. Qed.
+Print Assumptions go_decls_well_formed_partial.
+
+Theorem all_option_vectors_enumerated : (forall fl, In fl all_flags) /\ List.length all_flags = 128%nat.
+Proof. split; [exact in_all_flags | exact all_flags_length]. Qed.
+Print Assumptions all_option_vectors_enumerated.
+
+Theorem method_calls_closed_under_every_vector : forall fl ctx s, r_missing_methods (report fl ctx s) = [].
+Proof. exact method_calls_closed. Qed.
+Print Assumptions method_calls_closed_under_every_vector.
+
+(* proved: contexts made of the kinds the formatter has a case for carry no placeholder type, under every vector *)
+Theorem printable_contexts_have_no_placeholder : forall fl ctx s,
+    ctx_printable ctx = true -> In s ctx -> r_placeholders (report fl ctx s) = [].
+Proof. exact printable_no_placeholder. Qed.
+Print Assumptions printable_contexts_have_no_placeholder.
+
+(* scalar default literals: a default of the dynamic Go type of its field is printed as a literal of that type;
+   refuted for the json.Number values the JSON Schema front-end leaves in defaults (printed as quoted strings) *)
+Theorem default_literals_typed_partial : forall k d, dyn_fits_kind k d = true -> lit_fits_kind k (format_scalar_lit d) = true.
+Proof. exact default_literal_typed. Qed.
+Print Assumptions default_literals_typed_partial.
+
+Theorem default_literals_typed_refuted :
+  lit_fits_kind KFloat64 (format_scalar_lit (DFloat "json.Number" "1.5")) = false /\
+  lit_fits_kind KInt64 (format_scalar_lit (DFloat "json.Number" "3")) = false.
+Proof. exact json_number_default_mistyped. Qed.
+Print Assumptions default_literals_typed_refuted.
+
+(* ---------- unsupported constructs must be errors ---------- *)
+Definition unsupported_is_error_statement : Prop :=
+  forall fl ctx s, In s ctx -> r_placeholders (report fl ctx s) <> [] -> exists e, go_run fl ctx = Err e.
+
+(* refuted: a union left inside a union branch is printed as the TYPE NAME `unknown`, which goimports accepts *)
+Theorem unsupported_is_error_refuted : ~ unsupported_is_error_statement.
+Proof.
+  intros H. destruct nested_union_silent as [[s [Hs Hp]] [out Hok]].
+  destruct (H flags_off w_nested_ctx s Hs) as [e He].
+  - rewrite Hp. discriminate.
+  - rewrite Hok in He. discriminate.
+Qed.
+Print Assumptions unsupported_is_error_refuted.
+
+(* proved for what is printed as text that is not Go: object kinds without a case in formatTypeDeclaration
+   (union, constant reference, composable slot, kind without payload) and embedded types that are no type names *)
+Theorem unsupported_is_error : forall fl ctx,
+    (decls_parse fl ctx = false -> exists e, go_run fl ctx = Err e) /\
+    (forall s k o, In s ctx -> In (k, o) (s_objects s) ->
+       (is_disj (o_type o) || match o_type o with TConstRef _ _ _ _ | TSlot _ _ | TBad _ _ => true | _ => false end)%bool = true ->
+       exists e, go_run fl ctx = Err e).
+Proof. intros fl ctx; split; [apply unparsable_is_error | intros; eapply object_kind_without_case_is_error; eauto]. Qed.
+Print Assumptions unsupported_is_error.
+
+(* ---------- obligations over the regenerated table (Gen/Placeholders_gen.v) ---------- *)
+(* every placeholder site of the Go jenny is one the model knows (modelled, or covered by the byte scan only) *)
+Lemma go_sites_known_obligation :
+  forallb (fun s => (negb (seqb (site_lang s) "go") || go_site_known (site_func s) (site_text s))%bool) placeholder_sites = true.
+Proof. vm_compute. reflexivity. Qed.
+Print Assumptions go_sites_known_obligation.
+
+(* the translator recognised every marker it met *)
+Lemma no_unrecognised_site :
+  forallb (fun s => negb (seqb (site_kind s) "unrecognised")) placeholder_sites = true.
+Proof. vm_compute. reflexivity. Qed.
+Print Assumptions no_unrecognised_site.
+
+(* the placeholder the model prints for a kind without a case is a text of the table *)
+Lemma model_placeholder_listed :
+  existsb (fun s => (seqb (site_lang s) "go" && seqb (site_text s) "unknown")%bool) placeholder_sites = true.
+Proof. vm_compute. reflexivity. Qed.
+Print Assumptions model_placeholder_listed.
+
+(* ---------- non-vacuity ---------- *)
+Definition ex_ctx : schemas :=
+  [mkSchema "p" G0 "" (TBad attrs0 "")
+     [("Kind", mkObject "Kind" [] (TEnum attrs0 [mkEnumVal (TScalar attrs0 KString DNil []) "KindA" (DStr "a")]) "p" "Kind");
+      ("Inner", mkObject "Inner" [] (TStruct attrs0 [] [sfield "n" (TScalar attrs0 KInt64 DNil []) true]) "p" "Inner");
+      ("Alias", mkObject "Alias" [] (TRef attrs0 "p" "Inner") "p" "Alias");
+      ("Root", mkObject "Root" [] (TStruct attrs0 [] [sfield "in" (TRef attrs0 "p" "Alias") true;
+                                                      sfield "many" (TArray attrs0 (TRef attrs0 "p" "Inner")) true;
+                                                      sfield "kind" (TRef attrs0 "p" "Kind") true;
+                                                      sfield "v" (TScalar attrs0 KAny DNil []) false]) "p" "Root")]].
+
+Example well_formed_under_all_128_vectors :
+  ctx_printable ex_ctx = true /\ forallb (fun fl => decls_wf fl ex_ctx) all_flags = true /\
+  (* the closure is not vacuous: with every option on, Root's bodies call three methods of Inner *)
+  List.length (flat_map (fun ko => calls_of (mkFlags true true true true false false true) ex_ctx (snd ko))
+                        (s_objects (nth 0 ex_ctx (mkSchema "" G0 "" (TBad attrs0 "") [])))) = 6%nat.
+Proof. repeat split; vm_compute; reflexivity. Qed.
